@@ -1295,7 +1295,7 @@ def check_c07(tier, seed, log=print):
     # chunked feeding (last clause of the property; theorem C07_chunked_feeding): partial lexers over a schedule of growing buffers,
     # each resumed (bump) where the one before answered None, finished by an ordinary lexer, must reproduce the one-shot stream;
     # the same schedules through the model function Chunked.feed (tie)
-    feed_stats = dict(schedules=0, with_several_cuts=0, model_disagreements=0)
+    feed_stats = dict(schedules=0, with_several_cuts=0, model_disagreements=0, resliced_schedules=0, resliced_model_disagreements=0)
     for cfgname in r['zoo_out']:
         if 'trace' in cfgname:
             continue
@@ -1326,6 +1326,24 @@ def check_c07(tier, seed, log=print):
                         run.violation('tie', rep_of(r, idx, cfgname, 'f' + t, P.hexs(S), observed=fv, model=mv, what='chunked feeding: compiled lexers and the model function Chunked.feed disagree',
                                                     correspondence='Lexer::new_partial + bump + next over a schedule vs LogosModel.Chunked.feed'),
                                       no_input=True, key='feedtie|%s' % corpus[idx].origin)
+                # the same schedule by re-slicing: lexers over src[q..k] (examples/json_reader.rs), spans moved by q
+                # (theorem C07_chunked_feeding_resliced, model function Reslice.feedR)
+                rv = st.get((idx, 'r' + t, P.hexs(S)))
+                if rv is None:
+                    continue
+                feed_stats['resliced_schedules'] += 1
+                if parse_stream(rv)[:2] != parse_stream(full)[:2] or parse_stream(rv)[2] is not None:
+                    fails.add(idx)
+                    run.violation('chunked-resliced', rep_of(r, idx, cfgname, 'r' + t, P.hexs(S), buffer_lengths=t, chunked_stream=rv, oneshot_stream=full,
+                                                    what='partial lexers over the not yet lexed slice of buffers of the given lengths (a new lexer over src[q..k] after every None, spans moved by q) followed by an ordinary lexer over the rest do not reproduce the one-shot token stream'),
+                                  key='feedr|%s|%s|%s' % (corpus[idx].origin, P.hexs(S), t))
+                mv = lean.get('%d FEEDR %s %s' % (idx, t, P.hexs(S)))
+                if mv is not None and not same_stream(rv, mv):
+                    feed_stats['resliced_model_disagreements'] += 1
+                    if idx not in fails:
+                        run.violation('tie', rep_of(r, idx, cfgname, 'r' + t, P.hexs(S), observed=rv, model=mv, what='chunked feeding by re-slicing: compiled lexers and the model function Reslice.feedR disagree',
+                                                    correspondence='Lexer::new_partial(&src[q..k]) + next over a schedule vs LogosModel.Reslice.feedR'),
+                                      no_input=True, key='feedrtie|%s' % corpus[idx].origin)
     run.coverage['chunked_feeding'] = feed_stats
     # certificate for partial mode (theorem partial_eq_spec needs prefixOK on every certified pair)
     certp = dict(P=0, noP=0)
